@@ -1,0 +1,124 @@
+//go:build verif
+
+// Contracts for package rangecache (comment-only; read by /verif/vcgo, build tag verif).
+package rangecache
+
+//@ func (Range) contains
+//@   mode int
+//@   pure
+//@   ensures result == (r[0] <= r2[0] && r[1] >= r2[1])
+
+//@ func (Range) isContainedIn
+//@   mode int
+//@   ensures result == (r2[0] <= r[0] && r2[1] >= r[1])
+
+//@ func (Range) isValidFor
+//@   mode int
+//@   ensures result == (r[0] >= 0 && r[1] <= size && r[0] <= r[1])
+
+//@ func clone
+//@   mode int
+//@   ensures (b == nil) == (result == nil)
+//@   ensures len(result) == len(b) && fresh(result)
+//@   ensures forall i int :: 0 <= i && i < len(result) ==> result[i] == b[i]
+
+//@ func orange
+//@   mode int
+
+//@ func lime
+//@   mode int
+
+// ---- the cache ----
+// remote(rc, k): ghost, byte k of the (immutable) remote file behind rc.remoteFetcher. Uninterpreted.
+//@ spec func remote(rc *RangeCache, k int) byte
+
+// cacheInv: every cached entry is a valid range of the file, has exactly the range's length and holds the remote bytes.
+//@ spec func cacheInv(rc *RangeCache) bool = (forall r Range :: has(rc.cache, r) ==> r[0] >= 0 && r[0] <= r[1] && r[1] <= rc.size && len(rc.cache[r].Value) == int(r[1]) - int(r[0])) && (forall r Range, k int :: has(rc.cache, r) && int(r[0]) <= k && k < int(r[1]) ==> rc.cache[r].Value[k-int(r[0])] == remote(rc, k))
+
+// getRangeFromCache: a hit returns a fresh copy (never a slice aliasing the cache) holding exactly remote[start:end].
+// Nothing is modified (LastRead is not refreshed by a hit).
+//@ func (*RangeCache) getRangeFromCache
+//@   mode int
+//@   requires ctx != nil && held(rc.mu) == 0 && cacheInv(rc) && start <= end
+//@   ensures held(rc.mu) == 0
+//@   ensures result2 != nil ==> !result1 && result0 == nil
+//@   ensures !result1 ==> result0 == nil
+//@   ensures result1 ==> fresh(result0) && len(result0) == int(end) - int(start) && 0 <= start && end <= rc.size
+//@   ensures result1 ==> forall j int :: 0 <= j && j < len(result0) ==> result0[j] == remote(rc, int(start)+j)
+
+// setRange (write lock held by the caller). The slice `value` is stored as is (no copy): the caller hands it over.
+//@ func (*RangeCache) setRange
+//@   mode int
+//@   requires ctx != nil && held(rc.mu) == 2 && rc.cache != nil && cacheInv(rc)
+//@   requires forall k int :: int(start) <= k && k < int(start) + len(value) ==> value[k-int(start)] == remote(rc, k)
+//@   modifies rc, rc.cache
+//@   ensures held(rc.mu) == 2
+//@   ensures cacheInv(rc)
+//@   ensures rc.size == old(rc.size) && rc.cache == old(rc.cache)
+//@   ensures int(start) < 0 || int(ln) < 0 || int(start) + int(ln) > int(rc.size) ==> result != nil
+//@   ensures int(start) < 0 || int(ln) < 0 || int(start) + int(ln) > int(rc.size) || len(value) != int(ln) ==> forall r Range :: has(rc.cache, r) == old(has(rc.cache, r)) && rc.cache[r] == old(rc.cache[r])
+//@   ensures result == nil ==> len(value) == int(ln)
+//@   ensures result == nil ==> exists r Range :: has(rc.cache, r) && r[0] <= start && int(r[1]) >= int(start) + int(ln)
+//@   loop 0 invariant cacheInv(rc) && rc.size == old(rc.size) && rc.cache == old(rc.cache) && held(rc.mu) == 2
+
+//@ func (*RangeCache) SetRange
+//@   mode int
+//@   requires ctx != nil && held(rc.mu) == 0 && rc.cache != nil && cacheInv(rc)
+//@   requires forall k int :: int(start) <= k && k < int(start) + len(value) ==> value[k-int(start)] == remote(rc, k)
+//@   modifies rc, rc.cache
+//@   ensures held(rc.mu) == 0
+//@   ensures cacheInv(rc)
+//@   ensures rc.size == old(rc.size) && rc.cache == old(rc.cache)
+//@   ensures int(start) < 0 || int(ln) < 0 || int(start) + int(ln) > int(rc.size) ==> result != nil
+//@   ensures int(start) < 0 || int(ln) < 0 || int(start) + int(ln) > int(rc.size) || len(value) != int(ln) ==> forall r Range :: has(rc.cache, r) == old(has(rc.cache, r)) && rc.cache[r] == old(rc.cache[r])
+//@   ensures result == nil ==> len(value) == int(ln)
+//@   ensures result == nil ==> exists r Range :: has(rc.cache, r) && r[0] <= start && int(r[1]) >= int(start) + int(ln)
+
+// getRange: `miss` is called through a function value under the write lock: vcgo havocs every heap there and knows nothing
+// about its results, so nothing can be promised about a successful result on the miss path.
+//@ func (*RangeCache) getRange
+//@   mode int
+//@   requires ctx != nil && miss != nil && held(rc.mu) == 0 && cacheInv(rc)
+//@   modifies all
+//@   ensures held(rc.mu) == 0
+//@   ensures start < 0 || end > old(rc.size) || start > end ==> result1 != nil && result0 == nil
+
+// GetRange: the `miss` closure (remoteFetcher call, clone, setRange) is a function literal: vcgo does not execute its
+// body and getRange's contract cannot speak about what `miss` returns. Hence of the C17 statement only the refusal of
+// bad ranges (including start+ln wrap-around), the lock discipline and the length of the result are dischargeable;
+// `fresh(result0)` is stated but fails (engine limitation), and the content clause
+//   result1 == nil ==> forall j :: 0 <= j && j < len(result0) ==> result0[j] == remote(rc, int(start)+j)
+// additionally needs a contract for the func-typed field rc.remoteFetcher, which cannot be written.
+//@ func (*RangeCache) GetRange
+//@   mode int
+//@   requires ctx != nil && held(rc.mu) == 0 && cacheInv(rc)
+//@   modifies all
+//@   ensures held(rc.mu) == 0
+//@   ensures int(start) < 0 || int(ln) < 0 || int(start) + int(ln) > int(old(rc.size)) ==> result1 != nil && result0 == nil
+//@   ensures result1 != nil ==> result0 == nil
+//@   ensures result1 == nil ==> len(result0) == int(ln)
+//@   ensures result1 == nil ==> fresh(result0)
+
+// ---- not in the C17 core, contracted so that the package sweep is clean and the invariant is closed under every method ----
+
+//@ func NewRangeCache
+//@   mode int
+//@   panics fetcher == nil
+//@   ensures result != nil && fresh(result) && result.size == size && result.cache != nil && cacheInv(result)
+//@   ensures forall r Range :: !has(result.cache, r)
+
+//@ func (*RangeCache) Close
+//@   mode int
+//@   requires held(rc.mu) == 0
+//@   modifies rc
+//@   ensures held(rc.mu) == 0 && result == nil && rc.cache == nil && rc.size == old(rc.size)
+
+// DeleteOldEntries only deletes: the invariant survives every visiting order and every subset of deletions.
+//@ func (*RangeCache) DeleteOldEntries
+//@   mode int
+//@   requires ctx != nil && held(rc.mu) == 0 && cacheInv(rc)
+//@   modifies rc, rc.cache
+//@   ensures held(rc.mu) == 0 && cacheInv(rc) && rc.size == old(rc.size) && rc.cache == old(rc.cache)
+//@   ensures forall r Range :: has(rc.cache, r) ==> old(has(rc.cache, r)) && rc.cache[r] == old(rc.cache[r])
+//@   loop 0 invariant held(rc.mu) == 2 && cacheInv(rc) && rc.size == old(rc.size) && rc.cache == old(rc.cache)
+//@   loop 0 invariant forall r Range :: has(rc.cache, r) ==> old(has(rc.cache, r)) && rc.cache[r] == old(rc.cache[r])
